@@ -16,8 +16,8 @@ impl Conjunction for NonZeroUsize {
     type Output = Self;
 
     fn conjunction(self, rhs: Self) -> Self::Output {
-        self.checked_add(rhs.into())
-            .expect("overflow determining conjunction of unsigned word")
+        // Sums that cannot be represented are at least as large as the largest word.
+        self.saturating_add(rhs.into())
     }
 }
 
@@ -25,8 +25,8 @@ impl Conjunction for usize {
     type Output = Self;
 
     fn conjunction(self, rhs: Self) -> Self::Output {
-        self.checked_add(rhs)
-            .expect("overflow determining conjunction of unsigned word")
+        // Sums that cannot be represented are at least as large as the largest word.
+        self.saturating_add(rhs)
     }
 }
 
@@ -46,8 +46,8 @@ impl Product for NonZeroUsize {
     type Output = Self;
 
     fn product(self, rhs: Self) -> Self::Output {
-        self.checked_mul(rhs)
-            .expect("overflow determining product of unsigned word")
+        // Products that cannot be represented are at least as large as the largest word.
+        self.saturating_mul(rhs)
     }
 }
 
@@ -55,8 +55,8 @@ impl Product for usize {
     type Output = Self;
 
     fn product(self, rhs: Self) -> Self::Output {
-        self.checked_mul(rhs)
-            .expect("overflow determining product of unsigned word")
+        // Products that cannot be represented are at least as large as the largest word.
+        self.saturating_mul(rhs)
     }
 }
 
